@@ -229,6 +229,10 @@ mod explore {
                     }
                 }
             }
+            if !inp.explore {
+                // history-only input: reference and sequential conformance only
+                return;
+            }
             let n = inp.gens.len();
             let nregions = regions.len();
             if shard == 0 {
@@ -320,7 +324,7 @@ mod explore {
         let exe = std::env::current_exe().unwrap();
         let mut children = vec![];
         for (idx, inp) in inputs.iter().enumerate() {
-            let shards = if inp.gens.len() < 4 { 1 } else if inp.gens.len() == 4 { 4 } else { 5 };
+            let shards = if !inp.explore || inp.gens.len() < 4 { 1 } else if inp.gens.len() == 4 { 4 } else { 5 };
             for sh in 0..shards {
                 let c = std::process::Command::new(&exe)
                     .args(["explore", tier, &seq_path, &real_path])
@@ -364,8 +368,27 @@ mod explore {
         // real rayon conformance (separate binary, real thread pools)
         let real = std::fs::read_to_string(&real_path).unwrap_or_default();
         let mut real_runs = 0u64;
+        let mut hist_runs = 0u64;
+        let mut hist_max_len = 0usize;
         for l in real.lines() {
             let p: Vec<&str> = l.split('\t').collect();
+            if p.len() >= 4 && p[0] == "hist" {
+                let sq: Vec<usize> = p[1].split('>').filter_map(|x| x.parse().ok()).collect();
+                if let (Some(&last), Ok(t)) = (sq.last(), u64::from_str_radix(p[3], 16)) {
+                    hist_runs += 1;
+                    hist_max_len = hist_max_len.max(sq.len());
+                    if let Some((tot, _)) = seq.get(&last) {
+                        if *tot != t && st.violations.len() < 60 {
+                            st.violations.push((
+                                "result-depends-on-call-history".to_string(),
+                                format!("inputs {} run one after the other in one pool of {} threads: the result of the last one ({}) differs from its result when run alone", p[1].replace('>', " then "), p[2], inputs.get(last).map_or("?", |i| i.name)),
+                                format!("check=c09\nhistory={}\nreal_rayon_threads={}\n", p[1], p[2]),
+                            ));
+                        }
+                    }
+                }
+                continue;
+            }
             if p.len() >= 4 {
                 if let (Ok(i), Ok(t)) = (p[0].parse::<usize>(), u64::from_str_radix(p[3], 16)) {
                     real_runs += 1;
@@ -408,17 +431,17 @@ mod explore {
         let wall = t0.elapsed().as_secs_f64();
         let seed: i64 = std::env::var("VERIF_SEED").ok().and_then(|s| s.parse().ok()).unwrap_or(0);
         let ev = format!(
-            "{{\n \"property_id\": \"C09\",\n \"tier\": {},\n \"seed\": {},\n \"level\": \"model_checking\",\n \"coverage\": {{\n  \"states\": {},\n  \"transitions\": {},\n  \"traces_validated_against_impl\": {},\n  \"samples\": [{}],\n  \"evaluations\": {},\n  \"distinct_nontrivial\": {},\n  \"distinct_outcomes\": {},\n  \"rule\": {},\n  \"exhaustive\": {},\n  \"bounds\": [{}],\n  \"caps_hit\": [{}],\n  \"parallel_regions_per_pipeline_max\": {},\n  \"regions_explored_exhaustively\": {},\n  \"max_deviations_in_one_schedule\": {},\n  \"real_rayon_runs_compared\": {},\n  \"sequential_build_comparisons\": {}\n }},\n \"assumptions\": [{}],\n \"wall_s\": {:e},\n \"violations\": {}\n}}\n",
+            "{{\n \"property_id\": \"C09\",\n \"tier\": {},\n \"seed\": {},\n \"level\": \"model_checking\",\n \"coverage\": {{\n  \"states\": {},\n  \"transitions\": {},\n  \"traces_validated_against_impl\": {},\n  \"samples\": [{}],\n  \"evaluations\": {},\n  \"distinct_nontrivial\": {},\n  \"distinct_outcomes\": {},\n  \"rule\": {},\n  \"exhaustive\": {},\n  \"bounds\": [{}],\n  \"caps_hit\": [{}],\n  \"parallel_regions_per_pipeline_max\": {},\n  \"regions_explored_exhaustively\": {},\n  \"max_deviations_in_one_schedule\": {},\n  \"real_rayon_runs_compared\": {},\n  \"call_histories_compared\": {},\n  \"longest_call_history\": {},\n  \"sequential_build_comparisons\": {}\n }},\n \"assumptions\": [{}],\n \"wall_s\": {:e},\n \"violations\": {}\n}}\n",
             jesc(tier),
             seed,
             st.executions.max(1),
             st.choice_points.max(1),
-            real_runs + conformance,
+            real_runs + hist_runs + conformance,
             samples.iter().map(|s| jesc(s)).collect::<Vec<_>>().join(", "),
             st.executions.max(1),
             st.schedules_sig.len(),
             st.outcomes.len(),
-            jesc("a state is one complete execution of the whole pipeline (every parallel entry point of the public API) under one schedule = sequence of answers to the choice points (cut after item i, next chunk, worker, current_num_threads); schedules are enumerated depth first: every region exhaustively for inputs with <= 4 generators, all schedules within <= 2 (<= 1 for n = 27 in quick) deviations from the default otherwise; distinct = distinct choice sequences; transitions = choice points answered; the oracle is byte equality of the sectioned digest with the default schedule, the sequential (no rayon) build and real rayon pools of 1..64 threads"),
+            jesc("a state is one complete execution of the whole pipeline (every parallel entry point of the public API) under one schedule = sequence of answers to the choice points (cut after item i, next chunk, worker, current_num_threads); schedules are enumerated depth first: every region exhaustively for inputs with <= 4 generators, all schedules within <= 2 (<= 1 for n = 27 in quick) deviations from the default otherwise; distinct = distinct choice sequences; transitions = choice points answered; the oracle is byte equality of the sectioned digest with the default schedule, the sequential (no rayon) build and real rayon pools of 1..64 threads; call histories: every ordered pair of inputs (thorough: every triple of the history-only inputs too) run one after the other on the persistent workers of one fresh real pool (1 and 2 threads): the last result must equal the result of that input alone"),
             if st.capped.is_empty() { "true" } else { "false" },
             bounds.iter().map(|s| jesc(s)).collect::<Vec<_>>().join(", "),
             st.capped.iter().map(|s| jesc(s)).collect::<Vec<_>>().join(", "),
@@ -426,6 +449,8 @@ mod explore {
             focus_regions_done,
             st.max_devs,
             real_runs,
+            hist_runs,
+            hist_max_len,
             conformance,
             [
                 "scheduling model = rayon's documented contract (contiguous chunks, per-chunk sequential order, order-preserving collect, completion-order side effects), not rayon-core's lock-free internals",
